@@ -3,4 +3,5 @@ import ArroyProofs.Properties.C04
 import ArroyProofs.Properties.C04Build
 import ArroyProofs.Properties.Unconditional
 import ArroyProofs.Properties.Reachable
+import ArroyProofs.Properties.C04Split
 #audit Arroy.C04
